@@ -20,7 +20,8 @@ import sys
 import time
 
 V = '/verif'
-REPO = '/repo'
+OUT = os.environ.get('VERIF_OUT', V)    # evidence/ and replays/ go here (bin/vmatrix on a private clone redirects them)
+REPO = os.environ.get('VERIF_REPO', '/repo')  # (an alternative tree is used only by bin/vmatrix on a private clone)
 WORKROOT = '/root/.cache/verif-work'
 GOENV = {'GOFLAGS': '-mod=mod', 'GOPROXY': 'off', 'GOSUMDB': 'off', 'GOTOOLCHAIN': 'local'}
 NCPU = os.cpu_count() or 4
@@ -294,7 +295,7 @@ class Check:
         for k, items in list(groups.items())[:40]:
             ident, what, payload = items[0]
             h = hashlib.sha1(k.encode()).hexdigest()[:12]
-            d = '%s/replays/%s/%s' % (V, self.pid, h)
+            d = '%s/replays/%s/%s' % (OUT, self.pid, h)
             os.makedirs(d, exist_ok=True)
             json.dump({'property': self.pid, 'ident': ident, 'what': what, 'payload': payload, 'occurrences': len(items),
                        'seed': seed(), 'tier': self.tier}, open(d + '/replay.json', 'w'), indent=1, default=str)
@@ -304,8 +305,8 @@ class Check:
               'coverage': self.cov, 'assumptions': self.assumptions, 'wall_s': round(wall, 1),
               'violations': len(self.violations),
               'known_findings_hit': {k: n for k, (_, n) in self.known_hits.items()}}
-        os.makedirs(V + '/evidence', exist_ok=True)
-        json.dump(ev, open('%s/evidence/%s.json' % (V, self.pid), 'w'), indent=1, default=str)
+        os.makedirs(OUT + '/evidence', exist_ok=True)
+        json.dump(ev, open('%s/evidence/%s.json' % (OUT, self.pid), 'w'), indent=1, default=str)
         log('%s %s: %d violation(s), %d known-finding id(s) hit, %.1fs' % (
             self.pid, self.tier, len(self.violations), len(self.known_hits), wall))
         return 1 if self.violations else 0
